@@ -69,6 +69,11 @@ theorem buffer_checks_regenerated (b : Bytes) (n id : Nat) :
     consumeIDG id b = consumeID id b ∧ getVectorHeaderG b = getVectorHeader b :=
   ⟨getU32G_eq b, getU64G_eq b, getNG_eq n b, consumeIDG_eq id b, getVectorHeaderG_eq b⟩
 
+/-- **Bool switch tables regenerated.**  `PutBool` / `Bool` interpreting the `switch` tables extracted
+from the source (value ↦ type id, type id ↦ value, default = unexpected id) are the model's. -/
+theorem bool_tables_regenerated (v : Bool) (b : Bytes) :
+    putBoolG v = some (putBool v) ∧ getBoolG b = getBool b := ⟨putBoolG_eq v, getBoolG_eq b⟩
+
 /-! ## Round trips: `dec (enc v ++ rest) = ok (v, rest)` for every value of every primitive -/
 
 /-- int (`PutInt32`/`PutInt` then `Int32`/`Int`), every int32. -/
